@@ -65,7 +65,9 @@ REQUIRED_THEOREMS = ["Clikit.Props.C16." + n for n in (
     "bar_width_current_config", "bar_hyp_decides", "bar_width_current_config_dec", "setter_silent", "run_is_runC", "deciders_without_setters",
     "displayed_line_count_recorded", "set_format_no_residue", "set_format_section_clears_standing_frame",
     "start_guard_read", "start_explicit_max", "start_none_keeps_max", "start_explicit_frame", "finish_without_maximum",
-    "restart_unknown_ends_at_step")]
+    "restart_unknown_ends_at_step",
+    "ansi_screen_shows_latest_frame", "ansi_screen_after_frame", "screen_hyps_decide", "ansi_screen_final_dec",
+    "cursor_up_read_back")]
 RULE = ("exhaustive small scope: every call sequence up to length 4 over a pool of 8 (quick) / 11 (thorough) public "
         "calls with clock advances (start, advance(1) after 0 / 1/64 / 1/4 s [/ 2 s], advance(3) after 1/16 s, "
         "set_progress(max), display, clear, finish, set_message), thorough also lengths 5-6 over a 6-call pool and "
